@@ -415,7 +415,7 @@ def judge(rec: dict, res: dict) -> dict | None:
         for j, op in enumerate(my_ops):
             want = solo_outcome(rec, op)
             got = res["outcomes"][t][j] if j < len(res["outcomes"][t]) else ["missing"]
-            if got != want:
+            if not ops.same_outcome(op, got, want):
                 return {"kind": "outcome-differs-from-solo", "thread": t, "op_index": j,
                         "signature": {"kind": "outcome-differs-from-solo", "op_kind": op[0],
                                       "target": _family(rec["targets"][t][j])},
@@ -424,7 +424,7 @@ def judge(rec: dict, res: dict) -> dict | None:
                                   f"{core.jdump(want)[:200]} but concurrently -> {core.jdump(got)[:200]}"}
     for op, got in res.get("post", ()):
         want = solo_outcome(rec, op)
-        if got != want:
+        if not ops.same_outcome(op, got, want):
             tg = next((rec["targets"][t][j] for t, th in enumerate(rec["threads"]) for j, o in enumerate(th) if o == op), None)
             return {"kind": "outcome-differs-after-concurrent-episode", "thread": 0, "op_index": 0,
                     "signature": {"kind": "outcome-differs-after-concurrent-episode", "op_kind": op[0], "target": _family(tg)},
